@@ -467,6 +467,12 @@ func (c *normCtx) tryExtract(value ast.Value, expected Input) (ast.Value, bool) 
 	}
 	// Coerce literal once at extract time. We pass nil variableValues
 	// because we already know the value tree contains no variables.
+	// Only literals that are valid for the expected type are extracted: the synthetic variable is coerced with
+	// the leniency of variable values ("5" or true for Int), and validation only sees the rewritten document,
+	// so an invalid nested literal (["5"] for [Int], {x: true}) would otherwise be served instead of rejected.
+	if ok, _ := isValidLiteralValue(expected, value); !ok {
+		return value, false
+	}
 	coerced := valueFromAST(value, expected, nil)
 	if coerced == nil {
 		// valueFromAST returns nil for literals it can't coerce
